@@ -4,7 +4,7 @@ from __future__ import annotations
 
 from .. import gen, probe, spec
 from ..probe import violation
-from .common import call
+from .common import call, grow_while_asking
 from .c03 import make_prefix_free
 
 PROP = "C06"
@@ -14,7 +14,8 @@ SHARDS = {"quick": 8, "thorough": 16}
 ANCHORS = ["api.py:Converter.standardize_prefix", "api.py:Converter.standardize_curie", "api.py:Converter.standardize_uri"]
 DECIDING = ["query-model:standardize_prefix", "query-model:standardize_curie", "query-model:standardize_uri", "idempotence"]
 RULE = (
-    "case = random clash-free record set (synonyms, case variants, empty prefix; half forced prefix-free), any delimiter; "
+    "case = random clash-free record set (synonyms, case variants, empty prefix; half forced prefix-free), any delimiter, "
+    "every third one registered record by record while its strings are already being standardised; "
     "inputs: every known prefix/synonym, case variants, unknown strings, CURIEs and URIs built from them. Every "
     "standardize_* return is compared with the model (canonical of the owner; only the prefix part rewritten; longest URI "
     "prefix replaced by the canonical one); relations between real answers: standardize_prefix / standardize_curie are "
@@ -32,7 +33,17 @@ def run_case(ctx, g, rng):
     recs = gen.records(rng, d, 1, 5)
     if g % 2 == 0:
         recs = make_prefix_free(recs) or recs
-    c, how = gen.build(api, recs, d, rng)
+    if g % 3 == 1:
+        strings = [p for r in recs for p in spec.all_p(r)] + [p + d + "1" for r in recs for p in spec.all_p(r)] + [u + "1" for r in recs for u in spec.all_u(r)]
+
+        def ask(cc, s):
+            call(cc.standardize_prefix, s)
+            call(cc.standardize_curie, s)
+            call(cc.standardize_uri, s)
+
+        c, how = grow_while_asking(api, recs, d, rng, ask, strings), "asked-while-growing"
+    else:
+        c, how = gen.build(api, recs, d, rng)
     sp = spec.SpecConverter(recs, d)
     pf = sp.prefix_free()
     w = {"records": [spec.rec_dict(r) for r in recs], "delimiter": d, "prefix_free": pf}
@@ -48,7 +59,7 @@ def run_case(ctx, g, rng):
             probe.evaluated("idempotence")
             if call(c.standardize_prefix, a[1]) != a:
                 violation(["C06"], "idempotence", "standardize_prefix-not-idempotent", prefix=p, first=a, **w)
-        probe.note_key(f"prefix:{cls}", cls != "unknown" and cls != "canonical")
+        probe.note_key(f"prefix:{cls}:{'colon' if d == ':' else 'other'}:{how == 'asked-while-growing'}", cls != "unknown" and cls != "canonical")
         for i in rng.sample(gen.IDS, k=3) + [d]:
             curie = p + d + i
             s1 = call(c.standardize_curie, curie)
@@ -62,7 +73,7 @@ def run_case(ctx, g, rng):
                         violation(["C06"], "idempotence", "standardize_curie-not-idempotent", curie=curie, first=s1, second=s2, **w)
                     if repr(e1) != repr(e0):
                         violation(["C06"], "idempotence", "standardize_curie-changes-meaning", curie=curie, standard=s1, expand_before=e0, expand_after=e1, **w)
-            probe.note_key(f"curie:{cls}:{'delim' if d in i else 'id'}", cls not in ("unknown", "canonical"))
+            probe.note_key(f"curie:{cls}:{'delim' if d in i else 'empty' if i == '' else 'id'}:{'colon' if d == ':' else 'other'}:pf{int(pf)}", cls not in ("unknown", "canonical"))
             S.counters["wl:curies"] += 1
     for r in recs:
         for u0 in spec.all_u(r):
@@ -76,7 +87,8 @@ def run_case(ctx, g, rng):
                         violation(["C06"], "idempotence", "standardize_uri-not-idempotent-on-prefix-free-map", uri=u, first=s1, second=s2, **w)
                     if repr(call(c.compress, s1[1])) != repr(call(c.compress, u)):
                         violation(["C06"], "idempotence", "standardize_uri-changes-compression-on-prefix-free-map", uri=u, standard=s1, **w)
-                probe.note_key(f"uri:{'syn' if u0 != r.uri_prefix else 'canon'}:pf{int(pf)}", u0 != r.uri_prefix)
+                nested = len(sp.uri_matches(u)) > 1
+                probe.note_key(f"uri:{'syn' if u0 != r.uri_prefix else 'canon'}:pf{int(pf)}:nested{int(nested)}:{'empty' if i == '' else 'id'}:{how == 'asked-while-growing'}", u0 != r.uri_prefix or nested)
                 S.counters["wl:uris"] += 1
     for u in ("", "zzz", "http://nope/1"):
         call(c.standardize_uri, u)
